@@ -1,0 +1,15 @@
+//go:build verif
+
+package pipeline
+
+import "github.com/buildkite/go-pipeline/internal/env"
+
+// This file is only compiled with the "verif" build tag. It lets external
+// runtime monitors drive Interpolate with the module's own (internal)
+// environment implementation. It adds no behaviour to the package.
+
+// VerifNewEnv returns the internal env implementation with the given case
+// sensitivity, pre-populated from m.
+func VerifNewEnv(caseSensitive bool, m map[string]string) InterpolationEnv {
+	return env.New(env.CaseSensitive(caseSensitive), env.FromMap(m))
+}
